@@ -324,3 +324,67 @@ def tla_str(v):
     if isinstance(v, dict):
         return '[' + ', '.join(f'{k} |-> {tla_str(x)}' for k, x in v.items()) + ']'
     raise TypeError(type(v))
+
+
+def simulate_scripts(spec_dir, module, cfg, tag, num, depth, seed,
+                     marker='SCRIPT', timeout=900):
+    """Run TLC in simulation mode on a cfg that has an always-true invariant
+    printing ToString(<<marker, script, state>>) for complete behaviours.
+    Returns (list of (script, state), TLCResult); duplicates removed."""
+    res = run(spec_dir, module, cfg, tag, workers=1, timeout=timeout,
+              simulate=f'num={num}', depth=depth, seed=seed)
+    seen = {}
+    for line in res.output.splitlines():
+        if not line.startswith('"<<\\"' + marker):
+            continue
+        try:
+            inner = parse_value(line)           # the ToString()ed text
+            v = parse_value(inner)
+        except (ValueError, IndexError):
+            continue
+        key = json.dumps(v[1], sort_keys=True)
+        if key not in seen:
+            seen[key] = (v[1], v[2])
+    return list(seen.values()), res
+
+
+def bfs_scripts(spec_dir, module, cfg, tag, marker='SCRIPT', timeout=1800,
+                workers=1):
+    """Exhaustive BFS on a cfg whose VIEW hides the script history and whose
+    always-true invariant prints ToString(<<marker, script, state>>): TLC
+    then prints, for every distinct reachable state selected by the
+    invariant, ONE shortest behaviour reaching it."""
+    res = run(spec_dir, module, cfg, tag, workers=workers, timeout=timeout)
+    out = []
+    for line in res.output.splitlines():
+        if not line.startswith('"<<\\"' + marker):
+            continue
+        try:
+            v = parse_value(parse_value(line))
+        except (ValueError, IndexError):
+            continue
+        out.append((v[1], v[2]))
+    return out, res
+
+
+def novelty_order(scripts, n=3):
+    """Greedy order that front-loads behaviours containing unseen label
+    n-grams (labels reduced to their kind + first argument)."""
+    def grams(sc):
+        ks = [tuple(map(str, l[:4])) for l in sc]
+        return {tuple(ks[i:i + n]) for i in range(max(1, len(ks) - n + 1))}
+
+    if len(scripts) > 2500:             # keep the greedy pass cheap
+        import random
+        scripts = random.Random(len(scripts)).sample(scripts, 2500)
+    pool = [(grams(sc), sc, st) for sc, st in scripts]
+    seen, out = set(), []
+    while pool:
+        best = max(range(len(pool)), key=lambda i: len(pool[i][0] - seen))
+        g, sc, st = pool.pop(best)
+        if not (g - seen) and len(out) > 50:
+            out += [(s2, t2) for _, s2, t2 in pool] + [(sc, st)]
+            break
+        seen |= g
+        out.append((sc, st))
+    return out
